@@ -521,3 +521,340 @@ def file_url(path, form="plain"):
 
 
 URL_FORMS = ("plain", "localhost", "dotseg")
+
+
+# ====================================================================== replay of TLC cases (one function per part)
+
+def utf8_locale():
+    import codecs
+    import locale
+    try:
+        return codecs.lookup(locale.getpreferredencoding(False)).name == "utf-8"
+    except LookupError:
+        return False
+
+
+def h_one(seed, idx, case, variant):
+    """-> list of result dicts for one H case under one variant (several functions / containers)"""
+    rng = random.Random("x18-H-%s-%s-%s" % (seed, idx, variant))
+    stress = (0, 1, 1, 2)[variant % 4]
+    conc = h_concretize(rng, case, stress)
+    out = []
+    k = idx + variant
+    picks = [HASH_FNS[k % 3], HASH_FNS[(k + 1) % 3]] if variant == 0 else [HASH_FNS[k % 3]]
+    for j, (name, algo) in enumerate(picks):
+        container = CONTAINERS[(k + j) % 6]         # dictkeys excluded: items repeat
+        msg = h_check(case, conc, name, algo, container, kw=(k + j) % 5 == 0)
+        out.append({"part": "H", "idx": idx, "variant": variant, "status": "violation" if msg else "ok", "msg": msg or "",
+                    "fn": name, "container": container, "size": len(conc["data"])})
+    return out
+
+
+def p_one(seed, idx, case, variant):
+    rng = random.Random("x18-P-%s-%s-%s" % (seed, idx, variant))
+    stress = (0, 1, 2)[variant % 3]
+    conc = p_concretize(rng, case, stress)
+    k = idx + variant
+    name = ("patch_lines", "patchLines")[k % 2]
+    form = HUNK_FORMS[k % len(HUNK_FORMS)]
+    r = p_check(case, conc, name, form, kw=k % 7 == 0)
+    res = {"part": "P", "idx": idx, "variant": variant, "fn": name, "form": form, "typ": conc["typ"], "zone": case["zone"],
+           "size": len(conc["buf"]), "status": "ok", "msg": ""}
+    if isinstance(r, tuple):
+        res["status"], res["msg"] = r
+    elif r:
+        res["status"], res["msg"] = "violation", r
+    return [res]
+
+
+def m_one(seed, idx, case, variant):
+    rng = random.Random("x18-M-%s-%s-%s" % (seed, idx, variant))
+    k = idx + variant
+    fam = M_FAMILIES[k % len(M_FAMILIES)]
+    nranks = max([x for a in case["args"] for x in a] + [1])
+    conc = m_concretize(rng, case, fam, variant % 3)
+    kinds = [M_CONTAINERS[(k + j * 3) % len(M_CONTAINERS)] for j in range(len(case["args"]))]
+    name = ("merge_as_sets", "mergeAsSets")[k % 2]
+    msg = m_check(case, conc, name, kinds)
+    return [{"part": "M", "idx": idx, "variant": variant, "fn": name, "fam": fam, "kinds": kinds, "status": "violation" if msg else "ok",
+             "msg": msg or "", "size": sum(len(a) for a in conc["args"]), "nranks": nranks}]
+
+
+ALIGN = [8192, 65536, 131072]
+
+
+def g_one(seed, idx, case, variant, base):
+    """download_gunzip_lines (and, for a rotating part, download_file) on the concretized gzip file of a G case"""
+    import tempfile
+    rng = random.Random("x18-G-%s-%s-%s" % (seed, idx, variant))
+    stress = (0, 1, 2, 1)[variant % 4] if utf8_locale() else 0
+    align = None
+    if variant == 3 and case["damage"] == "none" and case["cuts"] and case["cuts"][0] > 0 and "x" in case["content"][:case["cuts"][0]]:
+        align = rng.choice(ALIGN) + rng.choice([-1, 0, 1])
+    conc = g_concretize(rng, case, stress, align)
+    repo, tmpd, ldir = os.path.join(base, "repo"), os.path.join(base, "tmp"), os.path.join(base, "ldir")
+    for d in (repo, tmpd, ldir):
+        if os.path.isdir(d):
+            for e in os.listdir(d):
+                os.unlink(os.path.join(d, e))
+        else:
+            os.makedirs(d)
+    path = os.path.join(repo, "Packages")
+    with open(path + ".gz", "wb") as f:
+        f.write(conc["gz"])
+    k = idx + idx // 4 + variant
+    d = ds()
+    out = []
+    old_tmp = tempfile.tempdir
+    tempfile.tempdir = tmpd
+    try:
+        name = ("download_gunzip_lines", "downloadGunzipLines")[k % 2]
+        form = URL_FORMS[k % 3]
+        url = file_url(path, form)
+        st, got = call(getattr(d, name), remote=url + ".gz") if k % 5 == 0 else call(getattr(d, name), url + ".gz")
+        res = {"part": "G", "idx": idx, "variant": variant, "fn": name, "url": form, "damage": case["damage"], "status": "ok", "msg": "",
+               "size": len(conc["gz"]), "align": align, "exc": type(got).__name__ if st == "raise" else "none", "members": len(case["cuts"]) + 1}
+        what = "%s(file:// URL of a gzip file: %d member(s), %d bytes, damage %s; content %s)" % (
+            name, len(case["cuts"]) + 1, len(conc["gz"]), case["damage"], short(conc["content"], 80))
+        left = sorted(os.listdir(tmpd))
+        if left:
+            res["status"], res["msg"] = "violation", "%s left %r in the temporary directory; specification: the temporary file is removed on every path" % (what, left)
+        elif case["expect"] == "lines":
+            if st == "raise":
+                res["status"], res["msg"] = "violation", "%s raised %s: %s; specification: the lines %s" % (what, type(got).__name__, short(str(got), 100), short(conc["lines"], 100))
+            elif got == conc["lines"]:
+                pass
+            elif case["hascr"] and got == conc["crlines"]:
+                res["status"], res["msg"] = "unspecified", "carriage returns read as line ends"
+            else:
+                res["status"], res["msg"] = "violation", "%s = %s; specification: the decompressed text cut after every newline and nowhere else: %s" % (
+                    what, short(got, 160), short(conc["lines"], 160))
+        elif case["expect"] == "raise":
+            if st != "raise":
+                res["status"], res["msg"] = "violation", "%s returned %s; specification: a file that is not gzip / truncated / fails its CRC raises" % (what, short(got, 100))
+        else:
+            res["status"], res["msg"] = "unspecified", "%s: %s" % (case["damage"], "raised " + type(got).__name__ if st == "raise" else "returned %d lines" % len(got))
+        out.append(res)
+        # download_file on the same remote: the local copy is the decompressed file
+        if case["expect"] == "lines" and (case["hascr"] or k % 3 == 0):
+            local = os.path.join(ldir, "Packages")
+            oldb = None
+            if k % 2:
+                oldb = b"old local copy\n"
+                with open(local, "wb") as f:
+                    f.write(oldb)
+            name2 = ("download_file", "downloadFile")[(k // 2) % 2]
+            st, got = call(getattr(d, name2), url, local)
+            r2 = {"part": "G", "idx": idx, "variant": variant, "fn": name2, "url": form, "damage": case["damage"], "status": "ok", "msg": "",
+                  "size": len(conc["gz"]), "align": align, "exc": type(got).__name__ if st == "raise" else "none", "members": len(case["cuts"]) + 1}
+            what2 = "%s(file:// URL of a gzip file: %d member(s), content %s)" % (name2, len(case["cuts"]) + 1, short(conc["content"], 80))
+            try:
+                with open(local, "rb") as f:
+                    now = f.read()
+            except OSError:
+                now = None
+            entries, left = sorted(os.listdir(ldir)), sorted(os.listdir(tmpd))
+            crb = "".join(conc["crlines"]).encode("utf-8")
+            if st == "raise":
+                r2["status"], r2["msg"] = "violation", "%s raised %s: %s" % (what2, type(got).__name__, short(str(got), 100))
+            elif entries != ["Packages"] or left:
+                r2["status"], r2["msg"] = "violation", "%s left %r next to the local file and %r in the temporary directory" % (what2, entries, left)
+            elif now == conc["content"] and (got == conc["lines"] or (case["hascr"] and got == conc["crlines"])):
+                pass
+            elif case["hascr"] and now == crb and now != conc["content"]:
+                r2["status"], r2["msg"] = "known-cr", "%s: local file is %s, the decompressed remote file is %s" % (what2, short(now, 60), short(conc["content"], 60))
+            else:
+                r2["status"], r2["msg"] = "violation", "%s: the local file is %s and the call returned %s; specification: the local file is the decompressed remote file %s, returned are its lines %s" % (
+                    what2, short(now, 100), short(got, 100), short(conc["content"], 100), short(conc["lines"], 100))
+            out.append(r2)
+    finally:
+        tempfile.tempdir = old_tmp
+    return out
+
+
+def value_chunk(args):
+    """pool worker: tasks = [(part, idx, case, variant)]"""
+    base, seed, tasks = args
+    base = os.path.join(base, "v%d" % os.getpid())
+    out = []
+    done = []
+    for part, idx, case, variant in tasks:
+        if part == "H":
+            res = h_one(seed, idx, case, variant)
+        elif part == "P":
+            res = p_one(seed, idx, case, variant)
+        elif part == "M":
+            res = m_one(seed, idx, case, variant)
+        else:
+            res = g_one(seed, idx, case, variant, base)
+        for r in res:
+            r["before"] = list(done)       # earlier calls of this process (state kept by the code under test would come from them)
+        done.append((part, idx, variant))
+        out += res
+    import shutil
+    shutil.rmtree(base, ignore_errors=True)
+    return out
+
+
+# ====================================================================== recorded call histories (code -> spec)
+
+def vhistory(seed, hidx, nops, base):
+    """a random history of helper calls in one process -> list of events for TracePdiffHelpers"""
+    import tempfile
+    rng = random.Random("x18-vhist-%s-%s" % (seed, hidx))
+    d = ds()
+    typ = rng.choice(["str", "bytes"])
+    uniq = {}       # line id -> concrete line (distinct texts: the projection back is unambiguous)
+
+    def line(i):
+        if i not in uniq:
+            while True:
+                t = "%d:%s" % (i, rng.choice(LINE_POOL))
+                if rng.random() < 0.15:
+                    t = "%d:" % i + rng.choice(NO_NL[2] + NO_NL[3]) * heavy(rng) + "\n"
+                t = t.encode("utf-8") if typ == "bytes" else t
+                if t not in uniq.values():
+                    break
+            uniq[i] = t
+        return uniq[i]
+    bufs, alias = {}, {}
+    nextid = [100]
+    events = []
+    last_hunks = None
+
+    def proj(lst):
+        rev = {v: k for k, v in uniq.items()}
+        return [rev.get(x, 0) if isinstance(x, (str, bytes)) else 0 for x in lst]
+
+    def after():
+        return {b: proj(v) for b, v in bufs.items()}
+    for _ in range(nops):
+        r = rng.random()
+        if r < 0.12 and len(bufs) < 3 or not bufs and r < 0.5:
+            b = "b%d" % (len(bufs) + 1)
+            ids = [rng.randint(1, 9) for _ in range(rng.choice([0, 1, 2, 3, 5, 8, 17, 33]))]
+            bufs[b] = [line(i) for i in ids]
+            alias[b] = bufs[b]
+            events.append({"op": "new", "b": b, "v": ids})
+        elif r < 0.55 and bufs:
+            b = rng.choice(sorted(bufs))
+            n = len(bufs[b])
+            if last_hunks is not None and rng.random() < 0.25:
+                hs = last_hunks                         # the SAME list of hunks applied again (to another list, perhaps)
+            else:
+                hs = []
+                for _h in range(rng.choice([0, 1, 1, 2, 3])):
+                    z = rng.random()
+                    if z < 0.85:
+                        f = rng.randint(0, n)
+                        l = rng.randint(f, n)
+                    elif z < 0.97:
+                        f = rng.randint(0, n + 2)
+                        l = rng.randint(max(f, n + 1), n + 3)
+                    else:
+                        l = rng.randint(0, n)
+                        f = l + rng.randint(1, 2)
+                    a = []
+                    for _a in range(rng.choice([0, 1, 1, 2, 3])):
+                        nextid[0] += 1
+                        a.append(rng.choice([nextid[0], rng.randint(1, 9)]))
+                    hs.append((f, l, a))
+                    n = n - (max(min(f, n), min(l, n)) - min(f, n)) + len(a)
+            conc = [(f, l, [line(i) for i in a]) for f, l, a in hs]
+            last_hunks = hs
+            form = rng.choice(HUNK_FORMS)
+            fn = getattr(d, rng.choice(["patch_lines", "patchLines"]))
+            patches = p_patches(form, conc)
+            target = alias[b] if rng.random() < 0.5 else bufs[b]
+            st, got = call(fn, lines=target, patches=patches) if rng.random() < 0.2 else call(fn, target, patches)
+            events.append({"op": "patch", "b": b, "hunks": [{"f": f, "l": l, "a": a} for f, l, a in hs], "out": "ok" if st == "ok" else "raise",
+                           "after": after()})
+            # what the call was given must not be tied to the list: change it and look again
+            if isinstance(patches, (list, tuple)) and patches and rng.random() < 0.6:
+                for h in patches:
+                    try:
+                        h[2].append(line(99))
+                        h[2][:1] = []
+                    except (AttributeError, TypeError, IndexError):
+                        pass
+                for f, l, a in conc:
+                    a.append(line(98))
+                events.append({"op": "frame", "after": after()})
+        elif r < 0.72:
+            text = [rng.randint(1, 4) for _ in range(rng.choice([0, 1, 2, 3, 4]))]
+            total = sum(text)
+            nch = rng.choice([0, 1, 2, 3, 4]) if total == 0 else rng.choice([1, 2, 3, 4])
+            cuts = sorted(rng.randint(0, total) for _ in range(max(0, nch - 1)))
+            bounds = {0}
+            acc = 0
+            for L in text:
+                acc += L
+                bounds.add(acc)
+            chunks = []
+            for j in range(nch):
+                lo = 0 if j == 0 else cuts[j - 1]
+                hi = total if j == nch - 1 else cuts[j]
+                kind = "str" if lo in bounds and hi in bounds and rng.random() < 0.6 else "bytes"
+                chunks.append({"kind": kind, "lo": lo, "hi": hi})
+            case = {"text": text, "chunks": chunks}
+            conc = h_concretize(rng, case, rng.choice([0, 1, 1, 2]))
+            name, algo = rng.choice(HASH_FNS)
+            st, got = h_call(name, conc["items"], rng.choice(CONTAINERS[:6]), rng.random() < 0.2)
+            full = [[i, b] for i, L in enumerate(text, 1) for b in range(1, L + 1)]
+            ok = st == "ok" and got == hashlib.new(algo, conc["data"]).hexdigest()
+            events.append({"op": "hash", "text": text, "chunks": chunks, "got": full if ok else [[0, 0]], "fn": name})
+        elif r < 0.88:
+            nr = 5
+            args = [[rng.randint(1, nr) for _ in range(rng.choice([0, 1, 2, 3, 6]))] for _ in range(rng.choice([0, 1, 2, 3, 4]))]
+            fam = rng.choice(M_FAMILIES[:-1])
+            vals = m_values(rng, fam, nr)
+            cargs = [[rng.choice(vals[x]) for x in a] for a in args]
+            kinds = [rng.choice(M_CONTAINERS) for _ in args]
+            st, got = call(getattr(d, rng.choice(["merge_as_sets", "mergeAsSets"])), *[m_contain(k, a) for k, a in zip(kinds, cargs)])
+            res = [0]
+            if st == "ok" and isinstance(got, list):
+                res = []
+                for x in got:
+                    rk = [r_ for r_, vs in vals.items() if any(x is v or (type(x) is type(v) and x == v) or x == v for v in vs)]
+                    res.append(rk[0] if rk else 0)
+                if isinstance(got, list) and got and rng.random() < 0.5:
+                    got.append(got[0])          # the result belongs to the caller
+            events.append({"op": "merge", "args": args, "res": res, "fam": fam})
+        else:
+            content = [rng.choice(["x", "x", "n"]) for _ in range(rng.choice([0, 1, 2, 3, 4, 5]))]
+            nm = rng.choice([1, 1, 2, 3])
+            cuts = sorted(rng.randint(0, len(content)) for _ in range(nm - 1))
+            damage = rng.choice(["none", "none", "none", "zeropad", "trunc", "crc", "notgz", "garbage", "undecodable"])
+            if damage not in ("none", "zeropad"):
+                cuts = cuts[:1]
+            toks = [{"i": i, "s": s} for i, s in enumerate(content, 1)]
+            case = {"content": content, "cuts": cuts, "damage": damage, "lines": [], "crlines": []}
+            conc = g_concretize(rng, case, rng.choice([0, 1]) if utf8_locale() else 0)
+            tmpd = os.path.join(base, "tmp")
+            os.makedirs(tmpd, exist_ok=True)
+            path = os.path.join(base, "hist.gz")
+            with open(path, "wb") as f:
+                f.write(conc["gz"])
+            old_tmp = tempfile.tempdir
+            tempfile.tempdir = tmpd
+            try:
+                st, got = call(getattr(d, rng.choice(["download_gunzip_lines", "downloadGunzipLines"])), file_url(path, rng.choice(URL_FORMS)))
+            finally:
+                tempfile.tempdir = old_tmp
+            left = os.listdir(tmpd)
+            for e in left:
+                os.unlink(os.path.join(tmpd, e))
+            events.append({"op": "gunzip", "content": content, "cuts": cuts, "damage": damage,
+                           "out": "leak" if left else ("lines" if st == "ok" else "raise"),
+                           "got": g_project(content, conc["runs"], got) if st == "ok" else []})
+    return events
+
+
+def vhistory_chunk(args):
+    base, seed, hidxs, nops = args
+    base = os.path.join(base, "vh%d" % os.getpid())
+    os.makedirs(base, exist_ok=True)
+    out = [(h, vhistory(seed, h, nops, base)) for h in hidxs]
+    import shutil
+    shutil.rmtree(base, ignore_errors=True)
+    return out
